@@ -23,9 +23,11 @@ Heap0(n) == << [t |-> "list", items |-> [i \in 1..n |-> HInt(0)]],
                [t |-> "list", items |-> <<HInt(5)>>],
                \* e: a list of length n whose first element is itself a list
                [t |-> "list", items |-> <<HInt(5)>>],
-               [t |-> "list", items |-> [i \in 1..n |-> IF i = 1 THEN [t |-> "list", addr |-> 4] ELSE HInt(0)]] >>
+               [t |-> "list", items |-> [i \in 1..n |-> IF i = 1 THEN [t |-> "list", addr |-> 4] ELSE HInt(0)]],
+               \* di: a host dict of n entries with the int keys 0 .. n-1 (an index assignment casts its key to text: a NEW entry)
+               [t |-> "dict", items |-> [i \in 1..n |-> << <<-2>> \o Tail(KeyCps(i - 1)), HInt(0)>>]] >>
 Names0(n) == [n1 |-> [a |-> [t |-> "list", addr |-> 1], d |-> [t |-> "dict", addr |-> 2], b |-> [t |-> "list", addr |-> 3],
-                      e |-> [t |-> "list", addr |-> 5],
+                      e |-> [t |-> "list", addr |-> 5], di |-> [t |-> "dict", addr |-> 6],
                       s |-> HStr([i \in 1..n |-> 97]), k |-> HInt(2),
                       m |-> [t |-> "dec", sub |-> FALSE, sign |-> 0, digs |-> <<2>>, exp |-> 0]]]
 
@@ -105,6 +107,8 @@ OpSeq == <<
     NCall("insert", <<A, NUn("-", NVal([t |-> "dec", sub |-> TRUE, sign |-> 0, digs |-> <<1>> \o [i \in 1..20 |-> 0], exp |-> 0])), Num(1)>>),
     NCall("push", <<A, A>>),
     \* more values than the entry takes: refused (TypeError), nothing is appended
+    NSetItem(NName("di"), Num(0), Num(1)),
+    NSetOp(NName("di"), Num(0), PlusEq, Num(1)),
     NCall("push", <<A, Num(1), Num(2)>>),
     NCall("insert", <<A, Num(0), Num(1), Num(2)>>),
     NCall("insert", <<A, Num(0), A>>) >>
